@@ -111,3 +111,86 @@ Section Sort.
   Lemma insert_length x l : length (insert less x l) = S (length l).
   Proof. induction l as [|z l IH]; cbn; [reflexivity|]. destruct (less x z); cbn; auto. Qed.
 End Sort.
+
+(* ------------------------------------------------------------------------------------------------ *)
+(* The JSON text: string escaping is read back exactly (hence injective and prefix-free)              *)
+(* ------------------------------------------------------------------------------------------------ *)
+Local Open Scope string_scope.
+
+Lemma sapp_assoc (a b c : string) : (a ++ b) ++ c = a ++ (b ++ c).
+Proof. induction a as [|x a IH]; cbn; [reflexivity|]. rewrite IH. reflexivity. Qed.
+
+Definition hexval (c : ascii) : N :=
+  let n := byte_of c in (if n <? 58 then n - 48 else n - 87)%N.
+
+(* one escaped character read from the front of a JSON string body; None at the closing quote *)
+Definition unesc_head (s : string) : option (ascii * string) :=
+  match s with
+  | EmptyString => None
+  | String c r =>
+      let n := byte_of c in
+      if (n =? 34)%N then None
+      else if (n =? 92)%N then
+        match r with
+        | String d r' =>
+            let m := byte_of d in
+            if (m =? 34)%N then Some (d, r') else if (m =? 92)%N then Some (d, r')
+            else if (m =? 110)%N then Some (ascii_of_N 10, r') else if (m =? 114)%N then Some (ascii_of_N 13, r')
+            else if (m =? 116)%N then Some (ascii_of_N 9, r') else if (m =? 98)%N then Some (ascii_of_N 8, r')
+            else if (m =? 102)%N then Some (ascii_of_N 12, r')
+            else match r' with
+                 | String _ (String _ (String h1 (String h2 r''))) =>
+                     Some (ascii_of_N (16 * hexval h1 + hexval h2)%N, r'')
+                 | _ => None
+                 end
+        | EmptyString => None
+        end
+      else Some (c, r)
+  end.
+
+Lemma unesc_esc_char : forall (c : ascii) (X : string), unesc_head (esc_char c ++ X) = Some (c, X).
+Proof.
+  intros [b0 b1 b2 b3 b4 b5 b6 b7] X.
+  destruct b0, b1, b2, b3, b4, b5, b6, b7; vm_compute; reflexivity.
+Qed.
+
+Lemma unesc_quote (X : string) : unesc_head (String """"%char X) = None.
+Proof. reflexivity. Qed.
+
+(* the body of a quoted string determines the string and where it ends *)
+Theorem esc_prefix_free : forall s s' X Y,
+  esc s ++ String """"%char X = esc s' ++ String """"%char Y -> s = s' /\ X = Y.
+Proof.
+  induction s as [|c s IH]; intros [|c' s'] X Y H; cbn [esc] in H.
+  - cbn in H. injection H as ->. split; reflexivity.
+  - rewrite sapp_assoc in H. apply (f_equal unesc_head) in H. rewrite unesc_esc_char in H. cbn in H. discriminate.
+  - rewrite sapp_assoc in H. apply (f_equal unesc_head) in H. rewrite unesc_esc_char in H. cbn in H. discriminate.
+  - rewrite !sapp_assoc in H. pose proof (f_equal unesc_head H) as H1. rewrite !unesc_esc_char in H1.
+    injection H1 as -> H2. destruct (IH s' X Y H2) as [-> ->]. split; reflexivity.
+Qed.
+
+Theorem quote_inj : forall s s', quote s = quote s' -> s = s'.
+Proof.
+  intros s s' H. unfold quote in H. injection H as H.
+  destruct (esc_prefix_free s s' EmptyString EmptyString H) as [E _]. exact E.
+Qed.
+
+(* integers are written in decimal and read back exactly *)
+Theorem zdec_inj : forall a b : Z, zdec a = zdec b -> a = b.
+Proof.
+  assert (Hd : forall p q, dec (Npos p) = dec (Npos q) -> p = q).
+  { intros p q H. apply (f_equal atoi) in H. rewrite !atoi_dec in H. congruence. }
+  assert (Hm : forall p, exists c r, dec (Npos p) = String c r /\ c <> "-"%char).
+  { intros p. pose proof (atoi_dec (Npos p)) as H. destruct (dec (Npos p)) as [|c r] eqn:E; [discriminate H|].
+    exists c, r. split; [reflexivity|]. intros ->. unfold atoi in H. cbn in H.
+    destruct (NilEmpty.uint_of_string r); cbn in H; discriminate H. }
+  intros [|p|p] [|q|q] H; cbn [zdec] in H; try reflexivity.
+  - change "0" with (dec 0) in H. apply (f_equal atoi) in H. rewrite !atoi_dec in H. discriminate.
+  - destruct (Hm q) as (c & r & E & _). cbn in H. discriminate.
+  - change "0" with (dec 0) in H. apply (f_equal atoi) in H. rewrite !atoi_dec in H. discriminate.
+  - f_equal. apply Hd, H.
+  - destruct (Hm p) as (c & r & E & Hc). rewrite E in H. cbn in H. injection H as -> _. contradiction.
+  - cbn in H. discriminate.
+  - destruct (Hm q) as (c & r & E & Hc). rewrite E in H. cbn in H. injection H as <- _. contradiction.
+  - cbn in H. injection H as H. f_equal. apply Hd, H.
+Qed.
